@@ -10,7 +10,7 @@ def T(level, tech, text, note, ref):
 
 RM = "runtime monitoring of the real transport in testing/synctest virtual time: "
 CHECKS = {
- "C01": T("exploration", RM + "reference RFC 9111 age/lifetime oracle on every from-store answer; exhaustive lifetime-source grid x boundary elapsed times x request directives, plus random histories under the race detector",
+ "C01": T("exploration", RM + "reference RFC 9111 age/lifetime oracle on every from-store answer; exhaustive lifetime-source grid x boundary elapsed times x request directives, an overlap part in which a slow background validation lands on an entry another exchange rewrote meanwhile, plus random histories under the race detector",
    "Every lookup answered from the store without origin contact is judged by an independent saturating age/lifetime computation fed from the harness's own records; held = no surely-stale serve without max-stale / only-if-cached / stale-while-revalidate on the cases executed.",
    "trusts testing/synctest virtual time, the harness oracle and the token identities; +-1 s guard bands at heuristic / max-stale / SWR boundaries are not judged", "DESIGN.md 4 C01"),
  "C02": T("exploration", RM + "universal monitor (validation demanded => a 304 was obtained in this exchange, or the origin's own answer returned), validation-request and request-object snapshots, over random histories under the race detector",
@@ -42,7 +42,7 @@ CHECKS = {
  "C12": T("exploration", RM + "metamorphic pairs: the same scripted history with canonical and re-spelled Cache-Control (case, OWS, empty members, quoted arguments, field-line splits, order, extensions) must give identical observation vectors; huge delta-seconds vs 2147483648",
    "Any difference of the per-exchange observation vector between spellings is a violation.",
    "rewrites are meaning-preserving per RFC 9111 5.2; duplicates not generated", "DESIGN.md 4 C12"),
- "C05": T("exploration", "runtime comparison behind real framing: raw HTTP/1.0 / 1.1 byte scripts over net.Pipe and unencrypted HTTP/2 over loopback through a real net/http client transport; the origin response is snapshotted before the cache sees it and compared field-by-field and byte-by-byte with what comes back from the store (memory, fs, encrypted fs); store writes scanned for hop-by-hop fields; a 304 phase checks merging; race detector on",
+ "C05": T("exploration", "runtime comparison behind real framing: raw HTTP/1.0 / 1.1 byte scripts over net.Pipe and unencrypted HTTP/2 over loopback through a real net/http client transport; the origin response is snapshotted before the cache sees it and compared field-by-field and byte-by-byte with what comes back from the store (memory, fs, encrypted fs); store writes scanned for hop-by-hop fields; a 304 phase checks merging and a replacement phase (forced validation answered with a full reply) repeats the comparison; a concurrent-stores part serialises and stores many resources at once and reads each back alone; race detector on",
    "Any difference in status, body bytes or the ordered values of an end-to-end field, any extra field, any hop-by-hop field stored or replayed, and any damaged miss body is a violation.",
    "trailers exercised but not asserted; HTTP/3 absent; header information net/http itself removes (e.g. a Connection header carrying 'close') cannot be judged", "DESIGN.md 4 C05"),
  "C13": T("fault_enumeration", RM + "scenario oracle over the full grid placement x window x staleness x failure kind (transport error, every status 400-599) x excluding directive; the scripted origin fails the validation and the result is compared with what the statement prescribes",
@@ -51,7 +51,7 @@ CHECKS = {
  "C14": T("exploration", "model-based runtime checking: every result of Set/Get/Delete/Keys (and of the maintenance HTTP handlers) compared with an in-harness map over adversarial key sets and backend configurations incl. reopen; porcupine linearizability check for concurrent memory-backend histories; disjoint-key concurrency on fs under the race detector",
    "Any result that differs from the map (wrong bytes, error on a legal key, missing ErrNotExist, wrong listing, aliasing with caller buffers) is a violation.",
    "keys up to about 6 kB (deeper than PATH_MAX); keys not addressable through an HTTP path segment are not judged via the API", "DESIGN.md 4 C14"),
- "C15": T("fault_enumeration", "porcupine linearizability checking of recorded concurrent fs histories with self-describing values (race detector on); child processes whose writes are cut at EVERY byte by RLIMIT_FSIZE; writers killed by timed SIGKILL or strace signal injection at syscall boundaries, with the on-disk states seen recorded; the same cut applied under a real transport",
+ "C15": T("fault_enumeration", "porcupine linearizability checking of recorded concurrent fs histories with self-describing values (race detector on); child processes whose writes are cut at EVERY byte by RLIMIT_FSIZE; writers killed by timed SIGKILL or strace signal injection at syscall boundaries, with the on-disk states seen recorded; after every cut / kill the reopened backend must list consistently with Get and read a later, shorter Set back exactly; the same cut applied under a real transport",
    "A Get returning bytes that are not, in full, a value ever Set for the key, an illegal history, or a transport serving a damaged body is a violation.",
    "process kill is not power loss; strace when=N counts per thread (coverage = recorded disk states)", "DESIGN.md 4 C15"),
  "C17": T("fault_enumeration", "tamper enumeration on the real backend files (every byte position x masks, every truncation, extensions, block swaps, multi-byte edits) with Get as the oracle; plaintext-window / nonce / ciphertext-equality scan of every file written through every configuration path, also under overlapping writers (race detector on); unusable keys x configuration paths; tampering under a real transport",
@@ -63,7 +63,7 @@ CHECKS = {
  "C20": T("exploration", RM + "scenario oracle over the full grid latency x background outcome x timeout setting x caller context x validators: foreground duration, number and conditionality of background calls, the exact instant the background request is released, goroutines with repository frames after quiescence",
    "A foreground wait, a call count != 1, a missing validator, a release at another instant than min(timeout, caller context end, reply), a leaked goroutine or a failed foreground is a violation.",
    "'never answering' observed for 10T+2h virtual", "DESIGN.md 4 C20"),
- "C16": T("exploration", "Go race detector over free-running random histories with background revalidation (Mode R), snapshot comparison of every returned header map and body at return / quiescence / end of history, and a deterministic gate scheduler (Mode S) that parks every store and origin operation of two concurrent requests and enumerates their interleavings depth-first, judging each outcome against the sequential rules (resource, variant, body token, invalidation epoch)",
+ "C16": T("exploration", "Go race detector over free-running random histories with background revalidation (Mode R), snapshot comparison of every returned header map and body at return / quiescence / end of history, and a deterministic gate scheduler (Mode S) that parks every store and origin operation of two concurrent requests and enumerates their interleavings depth-first, judging each outcome against the sequential rules (resource, variant, body token, invalidation epoch); a store-faults part fails every foreground and background store operation in turn under the same ownership monitors, with callers that read the body only after quiescence",
    "Race reports with a repository frame, any change of a returned header map after return, any modification of the caller's request, and any response of an enumerated interleaving that no sequential rule permits are violations.",
    "race detector sees only reached paths and its report set varies run to run; Mode S covers pairs of requests from a 14-request alphabet (triples only sampled); interleavings inside one store/origin operation are left to Mode R", "DESIGN.md 3.6, 4 C16, A.2"),
  "C18": T("exploration", RM + "universal monitor: an only-if-cached exchange must have no upstream call (foreground or background, after quiescence) and be a usable stored response or the synthesised 504",
